@@ -358,7 +358,9 @@ static void run_world(rng &r, long long idx, long long nreq)
 		w.pool->storage(std::unique_ptr<sess::session_storage_factory>(new logging_factory(std::move(f))));
 	}
 	w.pool->init();
-	vclock::now() = 1700000000L;
+	// some worlds live after 19 January 2038 (deadlines do not fit 31 bits any more), one in twelve just before it
+	vclock::now() = r.chance(1, 6) ? 2200000000L : (r.chance(1, 10) ? 2147483647L - r.range(0, 2000) : 1700000000L);
+	O().count(vclock::now() > 2147483647L ? "worlds_after_2038" : "worlds_before_2038");
 	int nb = r.range(1, 4);
 	for (int i = 0; i < nb; i++) { w.browsers.push_back(std::unique_ptr<browser>(new browser())); w.browsers[i]->id = i; }
 	O().count("worlds");
